@@ -2150,8 +2150,11 @@ class IndexSignature(BaseSignature):
         """
         # Expressions are a tuple when coming from an index and a list when
         # loaded from a stored signature. Both must hash (and compare) alike.
+        # The same goes for attributes listed in a different order.
         return hash(repr((self.name or None, self.fields,
-                          list(self.expressions or []), self.attrs)))
+                          list(self.expressions or []),
+                          sorted(six.iteritems(self.attrs or {}),
+                                 key=lambda pair: pair[0]))))
 
     def __repr__(self):
         """Return a string representation of the signature.
